@@ -92,9 +92,10 @@ def check_case(case, ctr):
         ctr['hit_label_on_bottom'] += 1
     if olabs[ref.top] or plabs[ref.top]:
         ctr['hit_label_on_top'] += 1
-    if lattice_members.Concept.objects != () or lattice_members.Concept.properties != ():
-        bad('class-default-leak', [(), ()],
-            [lattice_members.Concept.objects, lattice_members.Concept.properties])
+    # if the labels have class-level defaults they must still be empty (no leak between lattices)
+    cd = (getattr(lattice_members.Concept, 'objects', ()), getattr(lattice_members.Concept, 'properties', ()))
+    if any(isinstance(x, (tuple, list)) and len(x) for x in cd):
+        bad('class-default-leak', [(), ()], [repr(x) for x in cd])
     base = label_obs(lat)
     second = label_obs(case.fresh_ctx().lattice)
     if second != base:
